@@ -22,7 +22,10 @@ FIXES = [
     ("fix: pending FindService answers leave before", "C10", "NO-OFFER-AFTER-STOP", 40000),
     ("fix: an endpoint stays subscribed", "C17", None, 60000),
     ("fix: an SD message with non-ASCII", "C03", "RECEIVE-NO-RAISE", 6000),
+    ("fix: connection loss is handled at once", "C05", "TRUTH", 50000),
 ]
+ONLY = None
+
 
 
 def sh(cmd, **kw):
@@ -32,7 +35,13 @@ def sh(cmd, **kw):
 def main():
     log = sh(f"git -C {REPO} log --format='%H %s'").stdout.splitlines()
     out = []
+    only = sys.argv[1:] and sys.argv[1]
+    prev = []
+    if only and os.path.exists(os.path.join(VERIF, "findings", "fixed.json")):
+        prev = json.load(open(os.path.join(VERIF, "findings", "fixed.json")))
     for prefix, pid, rule, runs in FIXES:
+        if only and only not in prefix:
+            continue
         line = next((l for l in log if l.split(" ", 1)[1].startswith(prefix)), None)
         if line is None:
             print("no commit for", prefix)
@@ -75,7 +84,7 @@ def main():
         for wt in (wt_parent, wt_fix):
             sh(f"git -C {REPO} worktree remove --force {wt}")
         shutil.rmtree(rdir, ignore_errors=True)
-    json.dump(out, open(os.path.join(VERIF, "findings", "fixed.json"), "w"), indent=1)
+    json.dump(prev + out, open(os.path.join(VERIF, "findings", "fixed.json"), "w"), indent=1)
 
 
 if __name__ == "__main__":
